@@ -56,7 +56,8 @@ Print Assumptions C11_shared_state_ok_partial.
 Theorem C11_ownership_partial :
   forall (E : env) fuel nre rsizes bsizes (opss : list (list op)) (sched : list (nat * pick)),
     let c := run_sched E fuel {| c_g := gstate0 nre rsizes bsizes; c_threads := map spawn opss; c_fault := false |} sched in
-    c_fault c = false /    forall x, (cnt x (pool_ids (c_g c)) + cnt x (held (c_threads c)) <= 1)%nat.
+    c_fault c = false /\
+    forall x, (cnt x (pool_ids (c_g c)) + cnt x (held (c_threads c)) <= 1)%nat.
 Proof. exact ownership_invariant. Qed.
 Print Assumptions C11_ownership_partial.
 
